@@ -410,7 +410,15 @@ func checkCommon(c Case, v *vcase.Verdict) {
 	}
 	cls, bin := classOf(c.Class)
 	pfs := prefixesOf(bin)
-	sc := benchunit.CommonScale(append([]float64(nil), xs...), cls)
+	// the caller's values are formatted with the returned scale afterwards: they must be left as they are
+	arg := append([]float64(nil), xs...)
+	sc := benchunit.CommonScale(arg, cls)
+	for i := range xs {
+		if math.Float64bits(arg[i]) != math.Float64bits(xs[i]) {
+			v.Failf("CommonScale(%v, %v) changed its argument: element %d is now %v", xs, cls, i, arg[i])
+			return
+		}
+	}
 	// the smallest non-zero magnitude, found by the oracle
 	mi := -1
 	distinct := map[float64]bool{}
